@@ -18,6 +18,7 @@ type simnet struct {
 	storms  [][2]time.Duration // drop/duplicate only inside these windows (fault-free stretches in between)
 	stabAt  time.Duration
 	perfect bool // after a missed liveness bound: every message instantly to everyone
+	omni    bool // after a second miss: the gossip stub additionally offers what NO reactor rule would keep from a peer (see antiEntropy)
 }
 
 type partition struct {
